@@ -172,7 +172,7 @@ MANIFEST = {
                    "history (GenericAuthorization, no expiry); payload validity of gated messages is a generator label checked by the "
                    "correspondence; contents of the oracle/inflation/metadata values are abstracted to 'written or not' (digests). "
                    "Trusted: Coq kernel + vm_compute; go/ast extractor harness/gen/c16 (name-based package-local call graph, no type "
-                   "information); the driver's sha256 digests over raw KV iteration and address->id canonicalisation. A write placed before "
+                   "information; gate functions read symbolically into their accept condition); the driver's sha256 digests over raw KV iteration and address->id canonicalisation. A write placed before "
                    "the permission check is caught by the generated-facts obligation only (it is invisible through DeliverTx)."),
     "technique": "Coq proof (induction over message trees and histories) + generated gate-site facts + differential correspondence on DeliverTx traces",
 }
